@@ -4,7 +4,7 @@ from hypothesis import strategies as st
 
 from .. import gen
 from ..core import SubCheck, Violation
-from ..oracle import lib, np_rows, np_flat, lazy_ra, expect_ragged, expect_refused, expect_unchanged, expect_array, jsonable
+from ..oracle import LAZY_CHOICES, lib, np_rows, np_flat, lazy_ra, expect_ragged, expect_refused, expect_unchanged, expect_array, jsonable
 
 RULE = ("Cases = (row-length vector with empty rows anywhere, dtype, content incl. negatives / duplicates / dtype extremes "
         "/ NaN / inf where the operation is exact, operation in {cumsum, add/subtract/bitwise_xor.accumulate, sort, unique "
@@ -57,7 +57,7 @@ def body_cumsum(case, ctx):
 def cumsum_case(draw, tier):
     dts = gen.INT_DT * 2 + ["bool", "float32", "float64"]
     return {"a": draw(gen.ragged(tier, dts=dts, specials=False)), "spell": draw(st.sampled_from(["np", "method"])),
-            "axis": draw(st.sampled_from([-1, 1, -1, 1, None])), "lz": draw(st.sampled_from([0, 0, 1, 2, 3, 4]))}
+            "axis": draw(st.sampled_from([-1, 1, -1, 1, None])), "lz": draw(st.sampled_from(LAZY_CHOICES))}
 
 
 def body_accumulate(case, ctx):
@@ -85,7 +85,7 @@ def accumulate_case(draw, tier, inexact=False):
         a = {"lens": lens, "dt": dt, "vals": vals}
     else:
         a = draw(gen.ragged(tier, specials=False))
-    return {"a": a, "uf": uf, "axis": draw(st.sampled_from([-1, 1])), "lz": draw(st.sampled_from([0, 0, 1, 2, 3, 4]))}
+    return {"a": a, "uf": uf, "axis": draw(st.sampled_from([-1, 1])), "lz": draw(st.sampled_from(LAZY_CHOICES))}
 
 
 def body_accumulate_inexact(case, ctx):
@@ -102,7 +102,7 @@ def body_sort(case, ctx):
 
 @st.composite
 def plain_case(draw, tier):
-    return {"a": draw(gen.ragged(tier)), "axis": draw(st.sampled_from([-1, 1, None])), "lz": draw(st.sampled_from([0, 0, 1, 2, 3, 4]))}
+    return {"a": draw(gen.ragged(tier)), "axis": draw(st.sampled_from([-1, 1, None])), "lz": draw(st.sampled_from(LAZY_CHOICES))}
 
 
 def body_unique(case, ctx):
@@ -133,7 +133,7 @@ def body_unique(case, ctx):
 @st.composite
 def unique_case(draw, tier):
     return {"a": draw(gen.ragged(tier, dup=draw(st.booleans()))), "axis": draw(st.sampled_from([-1, 1, -1, 1, None])),
-            "counts": draw(st.booleans()), "lz": draw(st.sampled_from([0, 0, 1, 2, 3, 4]))}
+            "counts": draw(st.booleans()), "lz": draw(st.sampled_from(LAZY_CHOICES))}
 
 
 def body_diff(case, ctx):
@@ -155,7 +155,7 @@ def body_diff(case, ctx):
 @st.composite
 def diff_case(draw, tier):
     return {"a": draw(gen.ragged(tier)), "n": draw(st.sampled_from([0, 1, 1, 1, 2, 2, 3, 4, 5])), "pass_n": draw(st.booleans()),
-            "axis": draw(st.sampled_from([-1, 1, None])), "lz": draw(st.sampled_from([0, 0, 1, 2, 3, 4]))}
+            "axis": draw(st.sampled_from([-1, 1, None])), "lz": draw(st.sampled_from(LAZY_CHOICES))}
 
 
 SUBCHECKS = [
